@@ -30,10 +30,15 @@
     selectSet clears RecursiveTmpView after the anchor member was evaluated and hands over to selectSetForRecursion,
     which counts against --limit-recursion, stores the anchor's view (first round) / the step's view (later rounds)
     under the upper-cased name and the column list as RecursiveTmpView BEFORE the next step is evaluated in a fresh
-    node, stops at the first empty step, merges with the operator.  NOTE: `scope.RecursiveTable != nil` also holds for
-    every set operation nested in a member of the recursive definition (a sub-query with UNION inside the step): it is
-    run as a recursion of its own right-hand side until the limit - reported, not modelled (the generator writes no
-    set operators inside recursive members).
+    node, stops at the first empty step, merges with the operator.  (re-reviewed on fd70b7c, F101) selectSet runs a set operation as the
+    recursion only when `scope.RecursiveTable != nil && scope.recursionRoot`; recursionRoot is a field of the scope
+    that NONE of the three constructors copies (zero in every derived scope); it is written in one place, selectQuery,
+    on the node that function derives for the query, from its parameter; selectQuery is called with `false` by Select
+    (every sub-query, derived table, parenthesised set operand) and with `inlineTable.IsRecursive()` by
+    InlineTableMap.Set - so only the set operator of the recursive table's own query is the recursion (a chain
+    `a UNION ALL b UNION ALL c` nests on the left in that same scope, as before); a set operator in a sub-query, a
+    derived table or a parenthesised right-hand side of a member is an ordinary one in a scope that still sees the
+    working view.
 -/
 namespace Csvq.Ref
 
@@ -566,13 +571,13 @@ def createNodeBody : List String :=
    "}",
    "returnnode"]
 
-/-- `selectSet`: a set operation inside the definition of a recursive table is run as the recursion -/
+/-- `selectSet`: only the set operation of the recursive table's own query (scope.recursionRoot) is run as the recursion -/
 def selectSetBody : List String :=
   ["lview,err:=selectSetEntity(ctx,scope,set.LHS,forUpdate)",
    "if(err!=nil){",
    "returnnil,err",
    "}",
-   "if(scope.RecursiveTable!=nil){",
+   "if(scope.RecursiveTable!=nil&&scope.recursionRoot){",
    "scope.RecursiveTmpView=nil",
    "err:=selectSetForRecursion(ctx,scope,lview,set,forUpdate)",
    "if(err!=nil){",
@@ -670,7 +675,7 @@ def inlineTableSetBody : List String :=
    "}",
    "scope.RecursiveTable=&inlineTable",
    "}",
-   "view,err:=Select(ctx,scope,inlineTable.Query)",
+   "view,err:=selectQuery(ctx,scope,inlineTable.Query,inlineTable.IsRecursive())",
    "scope.CloseCurrentNode()",
    "if(err!=nil){",
    "returnerr",
@@ -684,5 +689,16 @@ def inlineTableSetBody : List String :=
    "}",
    "view.FileInfo=nil",
    "returnit.Store(inlineTable.Name,view)"]
+
+/-- `selectQuery(ctx context.Context,scope *ReferenceScope,query parser.SelectQuery,recursionRoot bool)`: how the scope of the query is made (`Select` calls it with recursionRoot=false) -/
+def selectQueryScope : List String :=
+  ["queryScope:=scope.CreateNode()",
+   "queryScope.recursionRoot=recursionRoot"]
+
+/-- every call of selectQuery and every write of .recursionRoot in lib/query (tests aside): file:function:what -/
+def recursionRootWrites : List String :=
+  ["inline_tables.go:InlineTableMap.Set:selectQuery(ctx,scope,inlineTable.Query,inlineTable.IsRecursive())",
+   "query.go:Select:selectQuery(ctx,scope,query,false)",
+   "query.go:selectQuery:queryScope.recursionRoot=recursionRoot"]
 
 end Csvq.Ref
